@@ -307,7 +307,9 @@ class CHECK(core.Check):
             ticks = int([l for l in out if l.startswith("ticks")][0].split()[1])
         except Exception:
             return False
-        return ticks >= 3 and any(l.startswith("T b ") or l.startswith("T f ") for l in out)
+        sup = len(case["framers"]) - 1
+        worker_bid = any(l.startswith("T b ") and int(l.split()[2]) != sup for l in out)
+        return ticks >= 3 and (worker_bid or any(l.startswith("T f ") for l in out))
 
     def bucket(self, case, out):
         if case.get("kind") == "table":
